@@ -114,7 +114,16 @@ def run_case(case, ctx):
             ctx.count('stencil_seen_before_with_higher_order')
             fd_weights_all(xin, x0, m - 1)
         W = fd_weights_all(xin, x0, n)
+        W_then = np.array(W, copy=True)
         w_n = fd_weights(xin, x0, n)
+        w_then = np.array(w_n, copy=True)
+        # results the caller still holds must not change when the library is asked for other weights of the same shape
+        fd_weights_all([float(v) + 0.37 for v in case['x']], float(x0) - 0.21, n)
+        fd_weights([float(v) * 1.5 for v in case['x']], float(x0) + 0.4, n)
+        ctx.count('earlier_results_checked_after_later_calls')
+        if np.asarray(W).tobytes() != W_then.tobytes() or np.asarray(w_n).tobytes() != w_then.tobytes():
+            ctx.reject('returned_weights_changed_by_a_later_call', observed=np.asarray(W)[-1], expected=W_then[-1])
+            return
     except Exception as exc:
         ctx.reject('raised', observed=repr(exc))
         return
